@@ -42,6 +42,50 @@ type Case struct {
 	WriteErr bool     `json:"write_error,omitempty"`
 	J        int      `json:"j,omitempty"`
 	Desc     []string `json:"desc,omitempty"`
+	// Big > 0 (fidelity): instead of Log the saver holds Big pairs of 2 MiB incompressible values
+	// followed by Tail small pairs (every command carries a leader index): the SST stream of the
+	// snapshot format rolls over to a new SST at 16 MiB, so the tail sits behind the last rollover
+	Big  int `json:"big,omitempty"`
+	Tail int `json:"tail,omitempty"`
+}
+
+func incompressible(n int, seed uint32) string {
+	b := make([]byte, n)
+	x := 2463534242 ^ seed
+	for i := range b {
+		x ^= x << 13
+		x ^= x >> 17
+		x ^= x << 5
+		b[i] = byte(x)
+	}
+	return string(b)
+}
+
+func buildBigSaver(c Case) (*fsmx.Inst, error) {
+	env := fsmx.NewEnv()
+	inst, _, err := env.Open("t", 10001, srt(c.Saver))
+	if err != nil {
+		return nil, err
+	}
+	n := 0
+	put := func(k, v string) error {
+		n++
+		_, err := inst.Update([]sm.Entry{fsmx.Entry(idx(n), WithLeader(Put(k, v, false), uint64(1000+n)))})
+		return err
+	}
+	for i := 0; i < c.Big; i++ {
+		if err := put(fmt.Sprintf("big/%02d", i), incompressible(2<<20, uint32(i+1))); err != nil {
+			inst.Close()
+			return nil, err
+		}
+	}
+	for i := 0; i < c.Tail; i++ {
+		if err := put(fmt.Sprintf("small/%d", i), "s"); err != nil {
+			inst.Close()
+			return nil, err
+		}
+	}
+	return inst, nil
 }
 
 type viol struct{ sig, detail string }
@@ -202,7 +246,13 @@ func useAndReopen(recv *fsmx.Inst, env *fsmx.Env, t string, want state, tag stri
 // RunFidelity: save on saver (optionally with a write between prepare and save), recover on receiver.
 func RunFidelity(c Case) (vs []viol, outcome string) {
 	alpha := c03.Alphabet()
-	saver, err := buildSaver(alpha, c.Log, c.Saver)
+	var saver *fsmx.Inst
+	var err error
+	if c.Big > 0 {
+		saver, err = buildBigSaver(c)
+	} else {
+		saver, err = buildSaver(alpha, c.Log, c.Saver)
+	}
 	if err != nil {
 		return []viol{{"setup-error", err.Error()}}, ""
 	}
@@ -509,7 +559,7 @@ func Run(r *evid.Run) {
 	if r.Thorough() {
 		depth = 3
 	}
-	r.Rule(fmt.Sprintf("(1) fidelity: every history of length 0..%d over the 16-entry C03 alphabet x saver format {snapshot,checkpoint} x receiver format x receiver prior state {fresh, other content at a higher index, the same after having saved a snapshot of its own in its own format} x {no write, a write between prepare and save, a write followed by a memtable flush (Sync) between prepare and save}; plus a write applied from inside save after its j-th output write, every j; receiver must equal the saver at prepare time (content, applied, leader index, hash), stay usable and reopen to the same. (2) stop signal at the j-th input read of recover / j-th output write of save (and, for save, an error of the output writer at its j-th write), every j: receiver entirely old or entirely new, usable, same after reopen; saver unchanged. (3) crash at every FS operation boundary of histories containing snapshot installs (C04 machinery). (4) reads overlapping an install at API granularity: unary read, lazy stream obtained and pulled message by message, install placed before every reader step, both formats. (5) the same overlap at statement granularity under the cooperative scheduler: one reader thread (unary / streamed) and one installer thread (both formats), a scheduling point before every statement of the read path and of recover, all interleavings up to the preemption bound. Non-trivial: all cases; distinct = distinct (case, observed state) renderings", depth))
+	r.Rule(fmt.Sprintf("(1) fidelity: every history of length 0..%d over the 16-entry C03 alphabet x saver format {snapshot,checkpoint} x receiver format x receiver prior state {fresh, other content at a higher index, the same after having saved a snapshot of its own in its own format} x {no write, a write between prepare and save, a write followed by a memtable flush (Sync) between prepare and save}; plus a write applied from inside save after its j-th output write, every j; receiver must equal the saver at prepare time (content, applied, leader index, hash), stay usable and reopen to the same; plus savers holding 8 or 9 pairs of 2 MiB incompressible values and 0..3 small pairs behind them (the SST stream rolls over at 16 MiB), all four format pairs. (2) stop signal at the j-th input read of recover / j-th output write of save (and, for save, an error of the output writer at its j-th write), every j: receiver entirely old or entirely new, usable, same after reopen; saver unchanged. (3) crash at every FS operation boundary of histories containing snapshot installs (C04 machinery). (4) reads overlapping an install at API granularity: unary read, lazy stream obtained and pulled message by message, install placed before every reader step, both formats. (5) the same overlap at statement granularity under the cooperative scheduler: one reader thread (unary / streamed) and one installer thread (both formats), a scheduling point before every statement of the read path and of recover, all interleavings up to the preemption bound. Non-trivial: all cases; distinct = distinct (case, observed state) renderings", depth))
 	total := par.SeqCount(len(alpha), depth)
 	types := []string{"s", "c"}
 	// (1)
@@ -555,6 +605,24 @@ func Run(r *evid.Run) {
 		}
 		if i == total-1 {
 			r.Sample(Case{Kind: "fidelity", Log: log, Saver: "c", Receiver: "s", Prior: "other", Between: true, Desc: describe(log)})
+		}
+	})
+	// large savers: the tail behind the last 16 MiB rollover of the SST stream
+	bigCases := []Case{}
+	for _, bt := range [][2]int{{8, 0}, {8, 3}, {9, 2}} {
+		for _, sv := range types {
+			for _, rc := range types {
+				bigCases = append(bigCases, Case{Kind: "fidelity", Saver: sv, Receiver: rc, Prior: "fresh", Big: bt[0], Tail: bt[1]})
+			}
+		}
+	}
+	par.For(int64(len(bigCases)), r.Expired, func(i int64) {
+		c := bigCases[i]
+		vs, outcome := RunFidelity(c)
+		r.Outcome(fmt.Sprint("big", c.Big, c.Tail, c.Saver, c.Receiver, outcome), true)
+		r.AddExtra("large_saver_cases", 1)
+		for _, v := range vs {
+			r.Violate("large/"+v.sig, v.detail, c)
 		}
 	})
 	if done < total {
